@@ -11,7 +11,7 @@ import (
 // second write travels on the confirmed channel. (A second number for a bound peer is answered 400 by the
 // server and the client then closes the whole relayed socket.)
 //
-//verif:props=C13,C08,C14 unwind=12 bounds="one IPv4 peer (all addresses and ports) written to in both slice forms, either first; permission present; the server confirms the ChannelBind"
+//verif:props=C13,C08,C14,C18 unwind=12 bounds="one IPv4 peer (all addresses and ports) written to in both slice forms, either first; permission present; the server confirms the ChannelBind"
 func VerifHarness_C13_one_binding_per_peer_in_both_ip_forms() {
 	fc := &vClient{fixed: vReactSuccess}
 	c := vNewUDPConn(fc)
